@@ -441,7 +441,7 @@ MANIFEST_TEXT['C17']['level_text'] += ' Every relaxed p_* function agrees with t
 MANIFEST_TEXT['C18']['level_text'] += ' Summary fields (identity / enterprise / compliance / oids) from the real parser + generators for identity-only / compliance-only modules, and the index built from them.'
 MANIFEST_TEXT['C08']['level_text'] += ' MibInfo.imported of the real symbol-table builder names every module of the IMPORTS clause and the SMIv2 homes, for all 248 entries of the import map.'
 
-for _p in ('C07', 'C08', 'C09'):
+for _p in ('C07', 'C09'):
     PROPS[_p]['modules'] = PROPS[_p]['modules'] + ['harness.x07']
     PROPS[_p]['stubs'] = list(PROPS[_p]['stubs']) + ['EXEC conditions (*.exec.real-compile.*): NO scripted components - the real MibCompiler with CallbackReader, the real parser, SymtableCodeGen, JsonCodeGen / PySnmpCodeGen (real templates) and CallbackWriter, once per solver-explored shape of a three-module set']
     MANIFEST_TEXT[_p]['technique'] += '; the real components plugged in, executed concretely per solver-explored shape (EXEC)'
